@@ -10,9 +10,9 @@ BASELINE_OFF = ("cd /repo && GOFLAGS=-mod=mod GOPROXY=off GOSUMDB=off go build .
 
 # property -> (technique, level text, level note (trusted base / not decided), design ref)
 P = {
- "C01": ("must-lockset + must-pass-through + who-may-write over the SSA of the balancer",
-         "Structural necessary conditions of exact weighted round-robin: every access to the iterator/pool state is serialised by the balancer mutex on every call path, every pool change passes the iterator reset before returning, the iterator is written only by the selection routine and the reset, a server is returned only on the weight>=level edge, the modulo is guarded. Level 'other': a lint with a stated argument, not a proof of the arithmetic.",
-         "NOT decided: the arithmetic core (server i chosen exactly w_i/g times per window) - a pure off-by-one in the sweep comparison or the gcd step is not detected by this check. Trusted: go/ssa, VTA call graph, the analyser.", "3/C01"),
+ "C01": ("must-lockset + must-pass-through + who-may-write + algorithm-shape normal forms (index step, gcd/max folds, Euclid loop, level comparison) over the SSA of the balancer",
+         "Structural necessary conditions of exact weighted round-robin: every access to the iterator/pool state is serialised by the balancer mutex on every call path; every pool change passes the iterator reset before returning; the iterator is written only by the selection routine and the reset; a server is returned only on the weight>=level edge; the modulo is guarded; pool-derived caches are refreshed on all exits; and the selection routine IS the classical gcd/maximum-level sweep (index +1 mod n, level lowered by the gcd fold of all weights exactly on wrap-around, re-armed with the max fold exactly at level<=0, taken iff weight>=level, Euclid's loop). Level 'other': a lint with a stated argument, not a proof of the theorem about that algorithm.",
+         "NOT decided: the exactness theorem of the classical algorithm itself (paper argument); an equivalent but different algorithm is reported as UNDECIDED. Trusted: go/ssa, VTA call graph, the analyser.", "3/C01, 10.2"),
  "C02": ("edge-guard (delete-edge reachability), must-pass-through, value-flow (ownership of pool URLs), sibling agreement of identity functions",
          "Per-operation necessary conditions of 'traffic only to current members': append to a pool only on the identity-lookup miss edge, remove fails without side effect on the miss edge and passes the reset on success, rebalancer mirrors and resets, selection error -> error handler and no forward, one identity function over {Scheme,Host,Path}, every pool URL handed downstream is a copy.",
          "NOT decided: 'added server selected within one rotation' (arithmetic of C01), whole-history agreement with a reference set. Trusted: go/ssa, analyser, utils.CopyURL copies.", "3/C02"),
